@@ -2645,6 +2645,11 @@ def _logf(I, x, what):
 @lib("numpy.log", "math.log")
 def _np_log(I, x, **kw):
     x0 = _val(x)
+    if isinstance(x0, SymSeq) and x0.elem == "Bool":
+        # log of an indicator: 0 where True, -inf where False
+        return Cell("arr", SymSeq(
+            x0.length, lambda i: LOGF(z3.If(bz(x0.get(i)), z3.RealVal(1),
+                                            z3.RealVal(0))), "Real"))
     if isinstance(x0, SymSeq):
         if not I.spec:
             I.oblige(f"log_arg_nonneg@{I.cur_line}",
